@@ -209,3 +209,43 @@ Example C07_url_example :
   url_ref_decode (attr_out true (before ++ UShow [97; 38; 98; 32; 43; 37; 52; 49] :: after))
   = mkUrl [47; 115] (Some [([108], Some [101; 110]); ([113], Some [97; 38; 98; 32; 43; 37; 52; 49])]) (Some [102]).
 Proof. exact url_attribute_example. Qed.
+
+(* ---------------------------------------------------------------- work package esc2: the machine of C06 (UrlStepM), srcset included *)
+From Verif Require Import UrlStepM UrlStep_proofs.
+
+(* the attribute value on which the theorems above are stated is the one the
+   pure machine UrlStepM.url_run of C06 writes (both are the renderer model
+   with a writer that never fails) *)
+Theorem C07_url_machine_agrees : forall (q : bool) (items : list item),
+  forallb item_ok items = true ->
+  url_attr_out (mkA q false) (map uop_of_item items) = attr_out q items.
+Proof. exact url_attr_out_agrees. Qed.
+Print Assumptions C07_url_machine_agrees.
+
+(* EXACTLY when a shown value is written with queryEscape, for every attribute
+   kind (quoted or not, srcset or not), every sequence of texts and values
+   (strings and values of HTML types) before it: in the query positions
+   UrlStepM.query_pos - in the current URL (the one after the last text with a
+   comma in a srcset) some template text lies at or after the first question
+   mark or number sign of a text or question mark of a value - and with
+   pathEscape everywhere else; in a query position the state is unchanged. *)
+Theorem C07_url_set_escaper_choice : forall (k : akind) (before : list uop) (s : bytes) (tr : bool),
+  forallb uop_ok before = true ->
+  let st := fst (url_run k u0 before) in
+  snd (url_step k st (UVal s tr))
+  = UOut (if query_pos (a_set k) before then Renderer_proofs.qe_flat (shown_text s tr)
+          else Renderer_proofs.pe_flat (a_quoted k) (shown_text s tr))
+  /\ (query_pos (a_set k) before = true -> fst (url_step k st (UVal s tr)) = st).
+Proof. exact url_escaper_choice. Qed.
+Print Assumptions C07_url_set_escaper_choice.
+
+(* so outside the query positions the slot property fails whenever the value
+   lies after a question mark: the value a&b=c is written a&amp;b=c (two pairs) *)
+Theorem C07_url_nonquery_position_not_a_slot : forall (k : akind) (before : list uop),
+  forallb uop_ok before = true -> query_pos (a_set k) before = false ->
+  snd (url_step k (fst (url_run k u0 before)) (UVal [97; 38; 98; 61; 99] false))
+  = UOut [97; 38; 97; 109; 112; 59; 98; 61; 99].
+Proof.
+  intros k before Hok Hq. destruct (url_escaper_choice k before [97; 38; 98; 61; 99] false Hok) as [H _].
+  cbv zeta in H. rewrite Hq, shown_text_untrusted in H. rewrite H. destruct (a_quoted k); vm_compute; reflexivity.
+Qed.
